@@ -35,7 +35,7 @@ struct Cfg {
     s << "g4:" << category << ":" << nuclide << ":s" << seed;
     if (category == "dbd") s << ":m" << mode << ":l" << level;
     if (emin > 0 || emax > 0) s << ":w" << emin << "-" << emax;
-    if (mdl) s << ":mdl(" << mdl_label << (mdl_aperture2 >= 0 ? ",rect" : "") << ")";
+    if (mdl) s << ":mdl(" << mdl_label << (mdl_aperture2 > 0 ? ",rect" : (mdl_aperture2 == 0 ? ",rect0" : "")) << ")";
     s << ":v" << vertex;
     if (nev != 3) s << ":n" << nev;
     if (gun_n) s << ":gun" << gun_n;
@@ -185,7 +185,9 @@ static std::string run_cfg(const Cfg & c, const std::set<std::string> & bkg, con
     if (c.vertex == 1) action.SetVertexGenerator(upv);
     if (c.vertex == 2) action.SetVertexGenerator(exv);
     if (c.vertex == 3) action.SetVertexGenerator(sqv);
+    if (c.vertex == 4) action.SetVertexGenerator(new bxdecay0_g4::UniquePointVertexGenerator(G4ThreeVector(1.0, 2.0, 3.0))); // (the pointer overload hands the object over to the action)
     for (int i = 0; i < NEV; i++) {
+      if (c.vertex == 4 && i == 1) action.SetVertexGenerator((bxdecay0_g4::VertexGeneratorInterface *)nullptr);
       G4Event ev;
       bool threw = false;
       std::string what;
@@ -220,7 +222,9 @@ static std::string run_cfg(const Cfg & c, const std::set<std::string> & bkg, con
         V("count", "event " + std::to_string(i) + ": " + std::to_string(ev.primaries.size()) + " primaries for " + std::to_string(parts.size()) + " BxDecay0 particles");
         continue;
       }
-      G4ThreeVector vtx = c.vertex == 1 ? G4ThreeVector(1.0, 2.0, 3.0) : (c.vertex == 2 ? G4ThreeVector(-4.0, 5.5, 6.25) : (c.vertex == 3 ? SequenceVertexGenerator::point(i) : G4ThreeVector(0, 0, 0)));
+      // vertex 4: the unique-point generator is un-installed after the first decay (SetVertexGenerator(nullptr)): origin from then on
+      if (c.vertex == 4 && i == 1 && action.HasVertexGenerator()) V("vertex-uninstall", "HasVertexGenerator() is still true after SetVertexGenerator(nullptr)");
+      G4ThreeVector vtx = c.vertex == 4 ? (i == 0 ? G4ThreeVector(1.0, 2.0, 3.0) : G4ThreeVector(0, 0, 0)) : c.vertex == 1 ? G4ThreeVector(1.0, 2.0, 3.0) : (c.vertex == 2 ? G4ThreeVector(-4.0, 5.5, 6.25) : (c.vertex == 3 ? SequenceVertexGenerator::point(i) : G4ThreeVector(0, 0, 0)));
       for (size_t k = 0; k < parts.size(); k++) {
         const auto & p = parts[k];
         const auto & q = ev.primaries[k];
@@ -316,11 +320,12 @@ int main(int argc, char ** argv)
                 }
               }
           } else {
-            for (int m = 0; m < 3; m++) {
+            for (int m = 0; m < 4; m++) {
               Cfg c;
               c.category = cat; c.nuclide = n; c.seed = seed; c.vertex = vertex;
               c.mdl = m > 0;
               if (m == 2) { c.mdl_aperture2 = 40.0; c.mdl_label = "gamma"; } // rectangular window with unequal half-angles
+              if (m == 3) { c.mdl_aperture2 = 0.0; c.mdl_label = "gamma"; }  // rectangular window with a null second half-angle (what the mdlr command stores when its last parameter is omitted): the core refuses it
               cfgs.push_back(c);
             }
           }
@@ -336,6 +341,12 @@ int main(int argc, char ** argv)
         c.category = "background"; c.nuclide = n; c.seed = seed; c.vertex = vertex; c.nev = full ? 1000 : 200;
         cfgs.push_back(c);
       }
+  for (const char * n : {"Co60", "Cs137+Ba137m"})
+    for (int seed : {1, 314159}) {
+      Cfg c;
+      c.category = "background"; c.nuclide = n; c.seed = seed; c.vertex = 4; c.nev = 4;
+      cfgs.push_back(c);
+    }
   for (const char * n : {"Mo100", "Cd106"})
     for (int vertex : {3}) {
       Cfg c;
